@@ -35,6 +35,7 @@ MODULES = [
     "degrees",
     "siblings",
     "lockstep",
+    "sparsefmt",
 ]
 
 
